@@ -1,6 +1,6 @@
 (* Compiled on every run of the C04 check: pins each statement and prints its assumptions. *)
 From Coq Require Import String List Arith Bool ZArith NArith.
-From SV Require Import gen.Gen_C04 c04.Model_C04 c04.Proofs_C04 c04.Properties_C04.
+From SV Require Import gen.Gen_C04 c04.Model_C04 c04.Proofs_C04 c04.Proofs_C04_Queue c04.Properties_C04.
 Import ListNotations.
 
 Check (visitors_cover : forall k, can_contain k = true -> marker_par k = true /\ marker_seq k = true).
@@ -28,8 +28,23 @@ Check (Safe_collection : forall c h r h2,
                        then fl_compact (c_chunk c) (boxes h2) else fl_grow (c_chunk c) (boxes h2);
               vecs := vecs h2; stale := stale h2 |} x = Some s' /\
     sval s' = sval s /\ live s' = true).
-Check (recycle_old_refuted :
-  exists fill st,
+Check (marker_queue_facts : pq_spill gen_pq = true /\ pq_local gen_pq = true /\ pq_drain gen_pq = true /\ pq_roots gen_pq = true /\ 1 <= pq_cap gen_pq).
+Check (C04_mark_complete_bounded_queue : forall trav q, 1 <= pq_cap q ->
+  pq_spill q = true -> pq_local q = true -> pq_drain q = true ->
+  forall fuel1 fuel2 h wl h1 nb1 nv1 h2 nb2 nv2,
+  (forall x, flagged h x = false) ->
+  mark_pq trav q fuel1 h ([], wl) 0 0 = Ok (h1, nb1, nv1) ->
+  mark_loop trav fuel2 h wl 0 0 = Ok (h2, nb2, nv2) ->
+  forall x, flagged h1 x = flagged h2 x).
+Check (mark_complete_bounded : forall h r h' nb nv,
+  mark_bounded marker_par gen_pq (reset_marks h) r = Ok (h', nb, nv) ->
+  forall x, reach h (all_roots r) x -> flagged h' x = true).
+Check (mark_bounded_fuel_suffices : forall trav q h r, mark_bounded trav q h r <> OutOfFuel).
+Check (lossy_queue_refuted : exists st h' nb nv x,
+    wide_state = Ok st /\
+    mark_bounded marker_par lossy_pq (reset_marks (hp st)) (rt st) = Ok (h', nb, nv) /\
+    reachb (hp st) (all_roots (rt st)) x = true /\ flagged h' x = false).
+Check (recycle_old_refuted : exists fill st,
     (forall o, In o fill -> exists e, o = OAllocBox false RsStack 0 e) /\
     after_old_recycler [] = Ok st /\ ev st (RGet (RRoot RsTls 0) 0) = Some (VAtom 7) /\
     exists st', after_old_recycler fill = Ok st' /\
@@ -44,4 +59,9 @@ Print Assumptions mark_keeps_contents.
 Print Assumptions mark_fuel_suffices.
 Print Assumptions alloc_preserves_live.
 Print Assumptions Safe_collection.
+Print Assumptions marker_queue_facts.
+Print Assumptions C04_mark_complete_bounded_queue.
+Print Assumptions mark_complete_bounded.
+Print Assumptions mark_bounded_fuel_suffices.
+Print Assumptions lossy_queue_refuted.
 Print Assumptions recycle_old_refuted.
